@@ -69,6 +69,18 @@ CHECKS = {
          "All 1.1e4 (1.1e5 thorough) reachable store states over a 12-record menu whose owners collide under concatenation and byte-prefixing are built on the real ResourceRecordManager; every one of the 37 operations out of every state is executed and the real store read back through get_domain_resources and compared with the plain-map reference store (so a merged state cannot hide a divergence); in every state 864 queries (every single question over 8 owners x 6 types x 3 classes x unicast, every ordered pair from a 24-question menu) run through build_reply and are checked for soundness, completeness at the question's own name, justified additional records, id, response flag, unicast aggregation and 'no reply iff nothing matches'. An insertion-order differential (all ordered pairs/triples of records without deduplication) validates the state abstraction.",
          "build_reply and the store are reached through the cfg-guarded simple_mdns::verif module. Answers are compared as sets; optional subdomain answers are allowed.",
          "DESIGN.md section 3, C13"),
+ "C15": ("exhaustive enumeration of 3072 instance descriptions and of all announcement histories up to depth 3 (4) over a 7-event menu, each driven through the real into_records -> announce-shaped compressed packet -> parse -> add_response_to_resources -> report path, plus all strings up to length 8 (10) over {a,'.','\\'} through escape/unescape",
+         "Every description (3 names x all subsets of 3 addresses x all subsets of 3 ports x 16 attribute maps with absent/empty/non-empty values, '=' inside a value and a 255-byte entry) is announced through the real code path with and without a discovery channel and must come back, through the channel and through the get_known_services computation, with exactly the same name, address set, port set and attribute map; every history over {two peers, a third empty peer, the discoverer's own instance, records owned by the service name, a foreign service, a look-alike service name} must report exactly the announced peers. escape then unescape must be the identity on every enumerated string.",
+         "The announce-shaped packet and the receiving store mirror ServiceDiscovery::announce / ::new (sockets are not involved in this check; C14 drives real sockets). Re-announcements carry identical data.",
+         "DESIGN.md section 3, C15"),
+ "C16": ("exhaustive enumeration of the C02 packet space (as built and as parsed from the wire) through clone / into_owned of every part, of all ordered pairs of a 60-record set for equality-implies-equal-hash, and of every insertion order of up to 4 addresses and 4 ports for InstanceInformation",
+         "For every packet, both built from parts and parsed from its own compressed bytes, the clone and the owned form of the packet, OPT data, every question, record, name, label and RDATA must observe equal field by field, compare equal, hash equally, serialise to identical bytes, and owned records must outlive the receive buffer. For all 3600 ordered pairs of records differing only in TTL/cache-flush, class, owner or RDATA, == must agree with field equality and equal values must hash equally (fixed hasher). InstanceInformation values built by inserting the same members in every permutation must be equal, hash equally and collapse to one HashSet element.",
+         "std's per-HashSet random seeds are not controllable: absence of false alarms is certain, detection of an order-dependent Hash is overwhelmingly likely (hundreds of equal pairs) rather than certain.",
+         "DESIGN.md section 3, C16"),
+ "C20": ("explicit-state search to the fixpoint over add-authoritative / add-cached(TTL 0,1,2,1000 / cache-flush) / remove / clear / tick on the real record store under a virtual clock (cfg hook verif_advance), every transition out of every state executed and observed after 0..=3 further ticks with every (name, filter) query, validated by real-sleep replays; thorough adds every history of 5 operations without deduplication",
+         "All 259 reachable abstract states over three records are reached on the real ResourceRecordManager; each of the 23 operations is executed out of every state and the result observed immediately and after 1, 2 and 3 more seconds (so hidden remaining lifetimes are compared, not assumed) with the authoritative, authoritative+subdomain, cached and combined filters at three names: a cached record is returned exactly while its TTL (1 s with cache-flush) since last reception has not elapsed, re-reception restarts it, authoritative records never expire, are never returned by cache-only queries and are not demoted by a network copy. The thorough tier runs all 6.4e6 histories of length 5 without deduplication. Traces with TTL 1/2, cache-flush and refresh are replayed with real 1.04 s sleeps and no hook and must give the same observations.",
+         "The virtual clock shifts stored deadlines; its agreement with the real clock is checked by the real-sleep traces. Paths slower than 250 ms are re-run and a violation is reported only if it reproduces.",
+         "DESIGN.md section 3, C20"),
 }
 NOT_YET = {}
 
